@@ -32,12 +32,12 @@ META = dict(
 )
 
 OBLIGATIONS = [
-    "C12_self_consistent", "C12_roundtrip_partial", "C12_roundtrip_exact", "C12_idempotent_partial", "C12_idempotent_after_one",
-    "C12_instance_name_refuted", "C12_univariate_default_refuted", "C12_scalar_noise_shape_refuted", "C12_float64_refuted",
-    "C12_tie_end_of_fit",
+    "C12_self_consistent", "C12_tie_end_of_fit", "C12_roundtrip_partial", "C12_roundtrip_exact", "C12_idempotent_partial",
+    "C12_instance_name_refuted", "C12_instance_name_case_refuted", "C12_univariate_default_refuted",
+    "C12_scalar_noise_shape_refuted", "C12_float64_refuted",
 ]
 
-SCRATCH = Path("/tmp/scratch/c12")
+SCRATCH = Path("/tmp/scratch/c12/run")
 
 ERR = {"LeaspyModelInputError": "ModelInputError", "LeaspyInputError": "InputError", "ValueError": "ValueError",
        "TypeError": "TypeError", "KeyError": "KeyError", "AttributeError": "AttributeError",
@@ -226,7 +226,7 @@ def config_specs(run: Run, thorough: bool):
     """Configurations: every kind x features x sources x noise x naming, initialised (cheap), hand-written or briefly fitted."""
     rng = run.rng("configs")
     specs = []
-    names_for = lambda kind: [None, None, "my-study", kind.upper(), "Study 1", "linear" if kind != "linear" else "logistic", ""]
+    names_for = lambda kind: [None] * 9 + ["my-study", kind.upper(), "Study 1", "linear" if kind != "linear" else "logistic"]
     for kind in ["logistic", "linear", "shared_speed_logistic", "joint", "mixture_logistic"]:
         for nf in ([1, 2, 3, 4] if kind != "mixture_logistic" else [2, 3, 4]):
             sds = [None, 0] + list(range(1, nf))
@@ -268,7 +268,17 @@ def config_specs(run: Run, thorough: bool):
             s["fit_seed"] = rng.randrange(100)
         elif r < 0.7:
             s["hand_seed"] = rng.randrange(10 ** 6)
-    return out
+    directed = [
+        dict(kind="logistic", n_feat=3, source_dimension=2, noise=None, dimension_given=False, name="my-study", hand_seed=1),
+        dict(kind="linear", n_feat=2, source_dimension=1, noise=None, dimension_given=True, name="LINEAR"),
+        dict(kind="logistic", n_feat=1, source_dimension=None, noise=None, dimension_given=False),
+        dict(kind="logistic", n_feat=2, source_dimension=0, noise="gaussian-scalar", dimension_given=False, fit_iter=2, fit_seed=1),
+        dict(kind="joint", n_feat=2, source_dimension=1, noise=None, dimension_given=False, fit_iter=2, fit_seed=2),
+        dict(kind="mixture_logistic", n_feat=3, source_dimension=1, noise=None, dimension_given=True, n_clusters=2, fit_iter=2, fit_seed=3),
+        dict(kind="logistic", n_feat=3, source_dimension=2, noise="gaussian-diagonal", dimension_given=True, fit_iter=3, fit_seed=4),
+        dict(kind="shared_speed_logistic", n_feat=3, source_dimension=1, noise=None, dimension_given=True, fit_iter=3, fit_seed=5),
+    ]
+    return directed + out
 
 
 def mutations(run: Run, d: dict, key):
